@@ -4,11 +4,19 @@ package main
 
 import (
 	"fmt"
+	"iter"
+	"math"
 	"strings"
 	"time"
 
 	"github.com/NethermindEth/juno/blockchain"
+	"github.com/NethermindEth/juno/core"
 	"github.com/NethermindEth/juno/core/felt"
+	"github.com/NethermindEth/juno/core/pending"
+	rpcv10 "github.com/NethermindEth/juno/rpc/v10"
+	junosync "github.com/NethermindEth/juno/sync"
+	"github.com/NethermindEth/juno/sync/preconfirmed"
+	"github.com/NethermindEth/juno/utils/log"
 	"verif/harness/lib"
 )
 
@@ -114,9 +122,12 @@ func emsString(es []Em) string {
 	return strings.Join(s, ",")
 }
 
-// naive scans the abstract canonical chain.
+// naive scans the abstract canonical chain (followed by the pre-confirmed blocks, if any).
 func naive(chain []Plan, f Filt, from, to int) []Em {
 	var out []Em
+	if from < 0 {
+		from = 0
+	}
 	for b := from; b <= to && b < len(chain); b++ {
 		for t, tx := range chain[b] {
 			for i, e := range tx {
@@ -151,7 +162,7 @@ func (p Page) String() string {
 func errClass(err error) string {
 	s := err.Error()
 	switch {
-	case strings.Contains(s, "key not found"):
+	case strings.Contains(s, "key not found"), strings.Contains(s, "Key not found"):
 		return "notfound"
 	case strings.Contains(s, "not within range"):
 		return "range"
@@ -163,28 +174,194 @@ func errClass(err error) string {
 }
 
 // Q is one query: filter, range, chunk size, scan limit (0 = unlimited).
+// FromTag / ToTag: "" = the number From / To, "latest", "pre_confirmed", "hash" (the hash of block
+// From / To). Rpc: ask through the starknet_getEvents handler (rpc/v10) instead of the EventFilter.
+// Pre: pre-confirmed blocks the node holds on top of its head while the query runs.
 type Q struct {
-	F     Filt `json:"filter"`
-	From  int  `json:"from"`
-	To    int  `json:"to"`
-	Chunk int  `json:"chunk"`
-	Limit int  `json:"limit"`
+	F       Filt   `json:"filter"`
+	From    int    `json:"from"`
+	To      int    `json:"to"`
+	Chunk   int    `json:"chunk"`
+	Limit   int    `json:"limit"`
+	FromTag string `json:"from_tag,omitempty"`
+	ToTag   string `json:"to_tag,omitempty"`
+	Rpc     bool   `json:"rpc,omitempty"`
+	Pre     []Plan `json:"pre,omitempty"`
 }
 
-// realPage asks the real EventFilter for one page. tok "" = first page.
-func realPage(n *Node, w *World, q Q, tok string) (pg Page) {
-	done := lib.WithDeadline(60*time.Second, func() {
+const sentinel = math.MaxUint64
+
+// bounds gives the filter's block bounds as the EventFilter gets them (what the model is asked),
+// for a chain of the given height (number of the head).
+func (q Q) bounds(head int) (from, to uint64) {
+	switch q.FromTag {
+	case "latest":
+		from = uint64(head)
+	case "pre_confirmed":
+		from = sentinel
+	default:
+		from = uint64(q.From)
+	}
+	switch q.ToTag {
+	case "latest":
+		to = uint64(head)
+	case "pre_confirmed":
+		to = sentinel
+	case "hash":
+		to = uint64(q.To)
+	default:
+		to = uint64(q.To)
+		if q.Rpc && q.To > head {
+			to = uint64(head) // setEventFilterRange: min(number, latest)
+		}
+	}
+	return from, to
+}
+
+// specRange is the property's reading of the bounds over the canonical chain followed by the
+// pre-confirmed blocks: `pre_confirmed` as lower bound is the newest pre-confirmed block.
+func (q Q) specRange(head int) (lo, hi int, empty bool) {
+	from, to := q.bounds(head)
+	top := head + len(q.Pre)
+	if from == sentinel {
+		if len(q.Pre) == 0 {
+			return 0, 0, true
+		}
+		lo = top
+	} else {
+		lo = int(from)
+	}
+	if to == sentinel || to > uint64(top) {
+		hi = top
+	} else {
+		hi = int(to)
+	}
+	return lo, hi, lo > hi
+}
+
+// fakePre is the pre-confirmed chain handed to the EventFilter (direct path).
+type fakePre struct{ blocks []*pending.PreConfirmed }
+
+func (f *fakePre) Length() int { return len(f.blocks) }
+func (f *fakePre) Head() *pending.PreConfirmed {
+	if len(f.blocks) == 0 {
+		return nil
+	}
+	return f.blocks[len(f.blocks)-1]
+}
+func (f *fakePre) OldestFirst() iter.Seq[*pending.PreConfirmed] {
+	return func(yield func(*pending.PreConfirmed) bool) {
+		for _, b := range f.blocks {
+			if !yield(b) {
+				return
+			}
+		}
+	}
+}
+
+// fakeSync is the sync.Reader of the RPC handler: only the pre-confirmed chain matters.
+type fakeSync struct {
+	junosync.NoopSynchronizer
+	blocks []*pending.PreConfirmed
+}
+
+func (f *fakeSync) PreConfirmedChain() (preconfirmed.ChainReader, error) {
+	if len(f.blocks) == 0 {
+		return preconfirmed.ChainReader{}, pending.ErrPreConfirmedNotFound
+	}
+	return preconfirmed.NewChain(f.blocks...)
+}
+
+// mkPre builds the pre-confirmed blocks of a query on top of the current head.
+func (w *World) mkPre(plans []Plan) []*pending.PreConfirmed {
+	var out []*pending.PreConfirmed
+	for i, plan := range plans {
+		var txs []core.Transaction
+		var rcs []*core.TransactionReceipt
+		for t, evs := range plan {
+			tx := w.Src.mkTx(t)
+			txs = append(txs, tx)
+			rcs = append(rcs, mkReceipt(tx, evs, uint64(1000+i)))
+		}
+		hdr := &core.Header{Number: uint64(len(w.Chain) + i), EventsBloom: core.EventsBloom(rcs),
+			TransactionCount: uint64(len(txs)), ProtocolVersion: "0.14.0"}
+		out = append(out, &pending.PreConfirmed{Block: &core.Block{Header: hdr, Transactions: txs, Receipts: rcs}})
+	}
+	return out
+}
+
+func (w *World) blockID(tag string, num int) (*rpcv10.BlockID, error) {
+	var id rpcv10.BlockID
+	switch tag {
+	case "latest":
+		id = rpcv10.BlockIDLatest()
+	case "pre_confirmed":
+		id = rpcv10.BlockIDPreConfirmed()
+	case "hash":
+		if num >= len(w.Bundles) {
+			return nil, fmt.Errorf("harness: no block %d to take the hash of", num)
+		}
+		id = rpcv10.BlockIDFromHash(w.Bundles[num].Block.Hash)
+	default:
+		id = rpcv10.BlockIDFromNumber(uint64(num))
+	}
+	return &id, nil
+}
+
+// realPage asks the real code for one page. tok "" = first page.
+func realPage(n *Node, w *World, q Q, pre []*pending.PreConfirmed, tok string) (pg Page) {
+	done := lib.WithDeadline(120*time.Second, func() {
 		err, panicked, _ := lib.Try(func() error {
 			addrs, keys := q.F.real()
-			fl, err := n.BC.EventFilter(addrs, keys, func() (blockchain.PreConfirmedReader, error) { return nil, nil })
+			if q.Rpc {
+				h := rpcv10.New(n.BC, &fakeSync{blocks: pre}, nil, log.NewNopZapLogger()).WithFilterLimit(uint(q.Limit))
+				fromID, err := w.blockID(q.FromTag, q.From)
+				if err != nil {
+					return err
+				}
+				toID, err := w.blockID(q.ToTag, q.To)
+				if err != nil {
+					return err
+				}
+				args := &rpcv10.EventArgs{
+					EventFilter:       rpcv10.EventFilter{FromBlock: fromID, ToBlock: toID, Address: rpcv10.AddressList(addrs), Keys: keys},
+					ResultPageRequest: rpcv10.ResultPageRequest{ContinuationToken: tok, ChunkSize: uint64(q.Chunk)},
+				}
+				chunk, rerr := h.Events(args)
+				if rerr != nil {
+					return fmt.Errorf("rpc error %d %s %v", rerr.Code, rerr.Message, rerr.Data)
+				}
+				for _, ee := range chunk.Events {
+					em := Em{int(ee.BlockNumber), int(ee.TransactionIndex), int(ee.EventIndex)}
+					pg.Ems = append(pg.Ems, em)
+					var ev *core.Event
+					if ee.Event != nil {
+						ev = (*core.Event)(ee.Event)
+					}
+					fe := blockchain.FilteredEvent{Event: ev, BlockNumber: ee.BlockNumber, BlockHash: ee.BlockHash,
+						TransactionHash: ee.TransactionHash, TransactionIndex: ee.TransactionIndex, EventIndex: ee.EventIndex}
+					if bad := w.checkTag(fe, pre); bad != "" && pg.Bad == "" {
+						pg.Bad = bad
+					}
+				}
+				pg.Tok = chunk.ContinuationToken
+				return nil
+			}
+			fl, err := n.BC.EventFilter(addrs, keys, func() (blockchain.PreConfirmedReader, error) {
+				if len(pre) == 0 {
+					return nil, nil
+				}
+				return &fakePre{blocks: pre}, nil
+			})
 			if err != nil {
 				return err
 			}
 			defer fl.Close()
-			if err := fl.SetRangeEndBlockByNumber(blockchain.EventFilterFrom, uint64(q.From)); err != nil {
+			from, to := q.bounds(len(w.Chain) - 1)
+			if err := fl.SetRangeEndBlockByNumber(blockchain.EventFilterFrom, from); err != nil {
 				return err
 			}
-			if err := fl.SetRangeEndBlockByNumber(blockchain.EventFilterTo, uint64(q.To)); err != nil {
+			if err := fl.SetRangeEndBlockByNumber(blockchain.EventFilterTo, to); err != nil {
 				return err
 			}
 			ef := fl.WithLimit(uint(q.Limit))
@@ -202,7 +379,7 @@ func realPage(n *Node, w *World, q Q, tok string) (pg Page) {
 			for _, fe := range evs {
 				em := Em{int(fe.BlockNumber), int(fe.TransactionIndex), int(fe.EventIndex)}
 				pg.Ems = append(pg.Ems, em)
-				if bad := w.checkTag(fe); bad != "" && pg.Bad == "" {
+				if bad := w.checkTag(fe, pre); bad != "" && pg.Bad == "" {
 					pg.Bad = bad
 				}
 			}
